@@ -152,7 +152,8 @@ def sym_token(x, tag, cls, L, cfg):
     if cls == 'lstring':
         body = x.bytes(tag, 1)
         x.assume(body[0] != 93)      # '[[]]]' is not what the lexer produces
-        return lexer.TokString(body, multiline_quote=b''), 'string'
+        level = x.choice(tag + '.level', [0, 1, 2])
+        return lexer.TokString(body, multiline_quote=b'=' * level), 'string'
     if cls == 'name':
         n = x.choice(tag + '.len', list(range(1, L + 1)))
         sp = x.bytes(tag, n)
@@ -254,7 +255,7 @@ def window(x, p):
     cfg = p['cfg']
     c1, c2 = p['c1'], p['c2']
     L = p['L']
-    gap = x.choice('gap', GAPS)
+    gap = x.choice('gap', p.get('gaps', GAPS))
     t1, k1 = sym_token(x, 'a', c1, L, cfg)
     t2, k2 = sym_token(x, 'b', c2, L, cfg)
     if t1 is None or t2 is None:
@@ -277,8 +278,13 @@ def window(x, p):
         # (a real dict would have to hash them)
         from symx import rt as _rt
         w._name_factory._name_map = _rt.SDict()
+    # arbitrary writer state before the window: the line-end flag matters
+    # exactly when the gap carries a line end
     w._last_was_name_keyword_number = p.get('last_word', False)
-    w._last_was_newline = p.get('last_nl', False)
+    if has_nl:
+        w._last_was_newline = x.choice('state.last_nl', [False, True])
+    else:
+        w._last_was_newline = p.get('last_nl', False)
     try:
         out = b''.join(w.to_lines())
     except Exception as e:
@@ -330,17 +336,21 @@ def known(t1, k1, t2, k2, gap):
 Q = {'_budget': 900}
 
 
-def pairs(cfgs, L):
+def pairs(cfgs, L, gaps=None):
     out = []
     for cfg in cfgs:
         for c1 in CLASSES:
             for c2 in CLASSES:
-                out.append(dict(Q, cfg=cfg, c1=c1, c2=c2, L=L))
+                d = dict(Q, cfg=cfg, c1=c1, c2=c2, L=L)
+                if gaps:
+                    d['gaps'] = gaps
+                out.append(d)
     return out
 
 
 HARNESSES = [
-    Harness('window', window, quick=pairs(['keep_all'], 2) + [
+    Harness('window', window, quick=pairs(
+        ['keep_all'], 2, ['none', 'space', 'newline', 'comment']) + [
         dict(Q, cfg='keep_all', c1='number', c2='symbol', L=4),
         dict(Q, cfg='keep_all', c1='symbol', c2='number', L=4),
         dict(Q, cfg='default', c1='name', c2='name', L=2),
